@@ -452,6 +452,22 @@ def run_concurrent_case(prog, params):
             return findings
         if bad:
             findings.append(fnd(key_base + '|tree_not_wellformed', 'after the concurrent calls: %s %s' % bad[0]))
+        if params.get('final_listing') and not bad:
+            # afterwards (no thread running any more) every directory's listing names exactly the children that exist:
+            # a listing served from state that a racing call left stale disagrees with exists()
+            for dv in ['R'] + [n_.var for n_ in u.nodes]:
+                if dv != 'R' and got_snap[dv][0] != 'dir':
+                    continue
+                sr.do('read_dir T_%s' % dv)
+                lo = sr.last
+                if not lo.ok:
+                    continue
+                want = sorted(n_.name.encode() for n_ in u.nodes if n_.parent == dv and n_.name is not None and got_snap[n_.var][0] in ('dir', 'file'))
+                got_l = [v_ for v_ in lo.value]
+                if all(v_.is_concrete() for v_ in got_l) and sorted(bytes(v_) for v_ in got_l) != want:
+                    findings.append(fnd(key_base + '|final_listing_disagrees', 'after the concurrent calls read_dir(%s) lists %r but the existing children are %r'
+                                        % (dv, sorted(bytes(v_) for v_ in got_l), want)))
+                    return findings
         # sequential reference executions
         conds = []
         for n_, seq in enumerate(interleavings(programs)):
